@@ -551,18 +551,6 @@ fn process_adt(src: &str, d: &Dir) -> StructOut {
         *rules.entry("R0".to_string()).or_insert(0) += 1;
     }
     let src: &str = &src_owned;
-    // R0 on a type definition (e.g. a `dyn A + B` payload Verus cannot take => an opaque shim type):
-    // each substitution must match exactly once and is counted/listed like the ones on functions
-    let mut src_owned = src.to_string();
-    for (a, b) in &d.substs {
-        let n = src_owned.matches(a.as_str()).count();
-        if n != 1 {
-            die("anchor-lost", &format!("{}: subst text occurs {} times: {:?}", d.item, n, a));
-        }
-        src_owned = src_owned.replacen(a.as_str(), b, 1);
-        *rules.entry("R0".to_string()).or_insert(0) += 1;
-    }
-    let src: &str = &src_owned;
     let item: syn::Item = syn::parse_str(src).unwrap_or_else(|e| die("parse-failure", &format!("{}: {}", d.item, e)));
     let mut edits: Vec<(Range<usize>, String)> = Vec::new();
     let mut bump = |k: &str, n: usize| {
